@@ -15,9 +15,13 @@ PrivateUse == 57344..63743                     \* U+E000..U+F8FF (the library's 
 Invisible == 8289..8292                        \* U+2061..U+2064
 Blank == {32, 9, 10, 13, 160, 44, 59}          \* white space and the pause punctuation
 HasPair(s, c) == \E i \in 1..(Len(s) - 1) : s[i] = c /\ s[i + 1] = c
+\* C15 also sends braille results and pairs (output under a fallback selection, output under what it falls back to)
 Reason(e) ==
-  IF e.visible = 0 THEN "ok"
+  IF "ref" \in DOMAIN e THEN (IF e.res # "ok" THEN "fallback-fails" ELSE IF e.out # e.ref THEN "fallback-differs" ELSE "ok")
+  ELSE IF e.visible = 0 THEN "ok"
   ELSE IF e.res # "ok" THEN "no-speech-" \o e.res
+  ELSE IF e.getter = "braille" THEN (IF ToSet(e.out) \subseteq {32, 9, 10, 13, 160, 10240} THEN "empty-braille-for-visible-content" ELSE "ok")
+  ELSE IF e.getter = "must-answer" THEN "ok"
   ELSE IF ToSet(e.out) \subseteq Blank THEN "empty-speech-for-visible-content"
   ELSE IF \E c \in ToSet(e.out) : c \in PrivateUse /\ c \notin ToSet(e.inp) THEN "internal-marker-in-speech"
   ELSE IF HasPair(e.out, 91) \/ HasPair(e.out, 93) THEN "navigation-brackets-in-speech"
